@@ -72,6 +72,13 @@ def _o_tx_wire(case, Tx, m, ref, ref_legacy, shape):
         _bad("tx:stripped!=ref", "as_bin(include_witness_data=False) differs from the legacy reference form")
     if tx.as_hex() != ref.hex():
         _bad("tx:as_hex", "as_hex() is not the hex of the reference bytes")
+    # the hex form takes the same options as the binary form and is its hex, option for option
+    for kw in ({"include_witness_data": False}, {"include_witness_data": True}, {"blank_solutions": True},
+               {"blank_solutions": True, "include_witness_data": False}):
+        if tx.as_hex(**kw) != tx.as_bin(**kw).hex():
+            _bad("tx:as_hex-option", "as_hex(%s) is not the hex of as_bin(%s)" % (kw, kw))
+    if tx.as_hex(include_witness_data=False) != ref_legacy.hex():
+        _bad("tx:as_hex-option", "as_hex(include_witness_data=False) is not the hex of the legacy reference form")
 
     # serialise -> parse -> equal, field by field
     tx2 = Tx.from_bin(got)
